@@ -50,6 +50,7 @@ def run_history(ld, n, limited, mem, ops, keyed):
         old = psutil.virtual_memory
         psutil.virtual_memory = oracle
         outs = []
+        iters, ipos = {}, {}
         try:
             for op in ops:
                 k = op[0]
@@ -69,6 +70,17 @@ def run_history(ld, n, limited, mem, ops, keyed):
                     elif k == 'copy':
                         handles.append(d.copy(freeze=op[2]))
                         outs.append(('new', len(handles) - 1))
+                    elif k == 'itnext':
+                        # an iteration IN FLIGHT: one next() of iterator number op[2] (created over handle h at its first use)
+                        if op[2] not in iters:
+                            iters[op[2]] = iter(d.items()) if op[3] else iter(d)
+                            ipos[op[2]] = 0
+                        try:
+                            x = next(iters[op[2]])
+                            outs.append(('val', tuple(x[1] if op[3] else x)))
+                            ipos[op[2]] += 1
+                        except StopIteration:
+                            outs.append(('end', ipos[op[2]]))
                     elif k == 'iter':
                         outs.append(('vals', [tuple(x) for x in d]))
                     elif k == 'items':
@@ -90,6 +102,7 @@ def model_ops(n, ops, handles_before):
     thread prefetch copies the dataset (freeze) and then reads every index through the copy)"""
     out = []
     nh = handles_before
+    ipos, ih = {}, {}
     for op in ops:
         k, h = op[0], op[1]
         if k in ('get', 'getnp'):
@@ -99,6 +112,15 @@ def model_ops(n, ops, handles_before):
         elif k == 'copy':
             out.append([f'MCopy {h}%nat'])
             nh += 1 if h < nh else 0
+        elif k == 'itnext':
+            p = ipos.get(op[2], 0)
+            if p < n and h < nh:
+                out.append([f'MGet {ih.setdefault(op[2], h)}%nat {p}'])
+                ipos[op[2]] = p + 1
+            elif h < nh:
+                out.append([])            # exhausted: no cache access
+            else:
+                out.append([f'MGet {h}%nat 0'])     # unknown handle
         elif k in ('iter', 'items'):
             out.append([f'MIter {h}%nat'])
         elif k == 'slice':
@@ -117,6 +139,7 @@ def coq_out(o):
     if o[0] == 'val': return f'(MVal V2 ({o[1][0]}%nat, {o[1][1]}%nat))'
     if o[0] == 'indexerror': return '(MIndexError V2)'
     if o[0] == 'nohandle': return '(MNoHandle V2)'
+    if o[0] == 'end': return '(MIndexError V2)'
     if o[0] == 'new': return f'(MNewHandle V2 {o[1]}%nat)'
     if o[0] == 'vals': return '(MVals V2 [%s])' % '; '.join(f'({a}%nat, {b}%nat)' for a, b in o[1])
     raise ValueError(o)
@@ -134,6 +157,8 @@ def coq_case(n, limited, mem, ops, res):
         elif op[0] == 'prefetch' and len(grp) == 2:
             flat_outs += [f'(MNewHandle V2 {nh}%nat)', coq_out(o)]
             nh += 1
+        elif op[0] == 'itnext' and not grp:
+            pass                              # StopIteration at the end of an in-flight iteration (checked directly)
         else:
             flat_outs.append(coq_out(o))
             if op[0] == 'copy' and o[0] == 'new':
@@ -166,10 +191,21 @@ def eval_cases(cases, tag, per=300):
 def gen_history(r, n, keyed, all_fine):
     ops = []
     nh = 1
+    its = {}
     for _ in range(r.randint(1, 12)):
         h = r.randrange(nh) if r.random() < 0.95 else nh + 1
-        k = r.choice(['get', 'get', 'get', 'getnp', 'copy', 'iter', 'slice'] + (['getk', 'items'] if keyed and n else []) +
+        k = r.choice(['get', 'get', 'get', 'getnp', 'copy', 'iter', 'slice', 'itnext', 'itnext', 'itnext'] + (['getk', 'items'] if keyed and n else []) +
                      (['prefetch'] if all_fine else []))
+        if k == 'itnext':
+            itid = r.randrange(2)
+            if itid in its:
+                h, wk = its[itid]
+            else:
+                wk = bool(keyed and n and r.random() < 0.3)
+                if h < nh:
+                    its[itid] = (h, wk)
+            ops.append((k, h, itid, wk))
+            continue
         if k in ('get', 'getnp'):
             ops.append((k, h, r.randint(-n - 1, n)))
         elif k == 'getk':
@@ -197,6 +233,8 @@ def direct(n, limited, mem, ops, res):
     seen_cached = {}
     for op, o in zip(ops, outs):
         vals = []
+        if o[0] == 'end' and o[1] != n:
+            fails.append(f'an iteration in flight ended after {o[1]} of {n} examples')
         if o[0] == 'val':
             vals = [o[1]]
         elif o[0] == 'vals':
